@@ -162,4 +162,155 @@ def boundsLoop (iv : Axis → Int × Int) : List (Option Axis × Nat) → List (
 def bounds (iv : Axis → Int × Int) (cols : List (Option Axis)) (rows : List (List Int)) : List (List Int) :=
   boundsLoop iv cols.zipIdx rows
 
+/-! ### `ServerSideFunctions.handle` past the routing: the function branch
+
+  The inner request carries the function-free selection clauses and **no projection**: the inner
+  handler serves its whole dataset with those clauses applied (`method(DatasetType)` hands the parsed
+  dataset over, nothing is serialised).  The middleware then runs `fix_shorthand` on the *whole*
+  projection against that dataset, splits it into the ordinary items (`base`) and the calls (`func`),
+  runs `apply_projection(base, dataset)` — the handler's own function, hyperslabs included — and
+  appends the result of every call, in the order of the calls.
+
+  Outside the model (explicitly `Exc.unspecified`): calls in selection position (the loop over
+  `selection`: `bounds` is modelled on its own above), and a result of a call whose name is already a
+  key of the output when the result has children (the insertion loop then walks on to the children
+  and merges them into `out[name]`).  The evaluator is a parameter: `ev inner call` is the variable
+  `eval_function(dataset, call, self.functions)` returns, a fresh top-level variable whose id is its
+  name (what `mean` builds). -/
+
+/-- `base = [p for p in projection if not isinstance(p, str)]` -/
+def ordinary (proj : List ProjItem) : List ProjItem := proj.filter fun p => !isCallItem p
+
+/-- `func = [p for p in projection if isinstance(p, str)]` -/
+def callsOf : List ProjItem → List Str
+  | [] => []
+  | .call s :: ps => s :: callsOf ps
+  | .path _ :: ps => callsOf ps
+
+/-- the insertion loop for one result:
+    `for child in walk(var): parent = out[…child.id.split(".")[:-1]]; if child.name not in parent.keys(): parent[child.name] = child; break`.
+    The first `child` is `var` itself, its parent is `out`: a name that is not yet a key is appended at
+    the end.  A name that is a key already: nothing is inserted at top level and the loop goes on to
+    the children of `var` — a `BaseType` has none (the result is **not** in the answer); a constructor's
+    children are merged into `out[name]` (not resolved). -/
+def insertResult (out : List Var) (v : Var) : Except Exc (List Var) :=
+  if oddName v.name || v.name.contains '.' then .error .unspecified
+  else if (out.map Var.name).contains v.name then
+    match v with
+    | .base _ => .ok out
+    | _ => .error .unspecified
+  else .ok (out ++ [v])
+
+/-- `for call in func: var = eval_function(dataset, call, self.functions); …insert…` — the evaluator sees
+    the *inner* dataset, not `out` -/
+def insertResults (ev : Dataset → Str → Except Exc Var) (inner : Dataset) :
+    List Var → List Str → Except Exc (List Var)
+  | out, [] => .ok out
+  | out, c :: cs =>
+    match ev inner c with
+    | .error e => .error e
+    | .ok v =>
+      match insertResult out v with
+      | .error e => .error e
+      | .ok out' => insertResults ev inner out' cs
+
+/-- the dataset the function branch hands to the response: `inner` is the parsed dataset of the
+    inner request -/
+def fnProject (ev : Dataset → Str → Except Exc Var) (inner : Dataset) (proj : List ProjItem) :
+    Except Exc Dataset :=
+  if proj = [] then .ok inner
+  else
+    match proj.mapM (fixShorthand1 inner) with
+    | .error e => .error e
+    | .ok proj' =>
+      match applyProjection (ordinary proj') inner with
+      | .error e => .error e
+      | .ok out =>
+        match insertResults ev inner out.vars (callsOf proj') with
+        | .error e => .error e
+        | .ok vars => .ok { out with vars := vars }
+
+/-- inner request (`query_string = stripped sel`, answered by `BaseHandler`), the selection-position
+    calls (not resolved), then the projection -/
+def fnDataset (ev : Dataset → Str → Except Exc Var) (ds : Dataset) (proj : List ProjItem) (sel : List Str) :
+    Except Exc Dataset :=
+  match constrained ds (stripped sel) with
+  | .error e => .error e
+  | .ok inner =>
+    if sel.any isCallSel then .error .unspecified
+    else fnProject ev inner proj
+
+/-- the function branch of `handle` for a request that `route` sends there -/
+def fnBranch (fmt : Int → Str) (ev : Dataset → Str → Except Exc Var) (ds : Dataset)
+    (path query _inner : Str) : Except Exc Outcome :=
+  match parseCE query, rsplitDot path with
+  | .ok (proj, sel), some (_, resp) =>
+    match lookupKind resp with
+    | none => .error .keyError               -- the inner handler answers with an error document
+    | some .other => .ok .answered
+    | some k =>
+      match fnDataset ev ds proj sel with
+      | .ok cds => .ok (.ok k (bodyOf fmt k cds))
+      | .error .unspecified => .ok .answered
+      | .error e => .error e
+  | _, _ => .error .valueError
+
+/-- `ServerSideFunctions(BaseHandler(ds))` with the function table behind `ev` -/
+def ssfHandle (fmt : Int → Str) (ev : Dataset → Str → Except Exc Var) (ds : Dataset) (path query : Str) : Outcome :=
+  ssf (Handler.handle fmt ds) (fnBranch fmt ev ds) path query
+
+/-! ### per-application function tables (`__init__`)
+
+  `self.functions = load_functions(); self.functions.update(kwargs)`: `load_functions()` builds a
+  **fresh** dict from the entry points on every call.  A table is an association list in insertion
+  order (a dict), a function is an identifier. -/
+
+abbrev Table := List (Str × Nat)
+
+def tlookup (t : Table) (n : Str) : Option Nat := (t.find? (·.1 = n)).map (·.2)
+
+/-- `d[k] = v`: an existing key keeps its place and takes the new value, a new key is appended -/
+def tset : Table → Str → Nat → Table
+  | [], k, v => [(k, v)]
+  | (k', v') :: t, k, v => if k' = k then (k', v) :: t else (k', v') :: tset t k v
+
+/-- `d.update(kw)` -/
+def tupdate (t : Table) : Table → Table
+  | [] => t
+  | (k, v) :: kw => tupdate (tset t k v) kw
+
+/-- a server process: what the entry points declare, and the applications built so far, each with
+    its own table -/
+structure FProc where
+  stock : Table
+  apps : List Table
+deriving DecidableEq, Repr
+
+/-- `load_functions()`: a new dict with the entry points' functions; the process is unchanged -/
+def loadFunctions (p : FProc) : Table × FProc := (p.stock, p)
+
+/-- `ServerSideFunctions(app, **kw)` -/
+def buildApp (p : FProc) (kw : Table) : FProc :=
+  let r := loadFunctions p
+  { r.2 with apps := r.2.apps ++ [tupdate r.1 kw] }
+
+def buildApps (p : FProc) (kws : List Table) : FProc := kws.foldl buildApp p
+
+/-- `self.functions[name]` in application `i` -/
+def appLookup (p : FProc) (i : Nat) (n : Str) : Option Nat := (p.apps[i]?).bind fun t => tlookup t n
+
+/-- the *seeded mutant's* process (seed C19-z): `load_functions` memoised, every application holds the
+    same dict object and `update` writes into it -/
+structure SProc where
+  shared : Table
+  napps : Nat
+deriving DecidableEq, Repr
+
+def buildAppShared (p : SProc) (kw : Table) : SProc := ⟨tupdate p.shared kw, p.napps + 1⟩
+
+def buildAppsShared (p : SProc) (kws : List Table) : SProc := kws.foldl buildAppShared p
+
+def appLookupShared (p : SProc) (i : Nat) (n : Str) : Option Nat :=
+  if i < p.napps then tlookup p.shared n else none
+
 end Pydap.Ssf
